@@ -242,4 +242,9 @@ theorem commissioning_spec_aux (rounds : Nat) (avail : Option (List Nat)) (re dr
       exact Nat.mul_le_mul_left _ (by omega)
     omega
 
+/-- bus of the non-vacuity examples in `Props/C07.lean`: four units, one already addressed (0), two of the
+others clash on 1000 in the first round -/
+def exBus : Bus :=
+  [{ draws := [5] }, { draws := [1000, 777] }, { short := some 0, draws := [9] }, { draws := [1000, 778] }]
+
 end DaliVerif.GearSeq
